@@ -66,3 +66,15 @@ type Deep struct {
 	Opt  *Extra `json:"opt,omitempty"`
 	Last []Inner
 }
+
+// Wrapper is only ever used embedded: its struct typed members are reachable through the embedding alone.
+type Wrapper struct {
+	WIn   Pair
+	WList []Uniq
+}
+
+// EmbedsDeep embeds a struct that itself has struct typed members.
+type EmbedsDeep struct {
+	Wrapper
+	Z int
+}
